@@ -37,8 +37,18 @@ func ruleSpecIndices(c *Ctx, r *Report, prefix string) {
 			seen[b.model] = normTerm(b.idx)
 		}
 	}
+	// the position mask is whichever field of the state holds 2^pb - 1 after Reset (it may have been
+	// renamed or moved into a record of derived parameters)
+	masks := posMaskPaths(c)
 	for m, w := range want {
 		got, ok := seen[m]
+		if ok && got != w && w == state2 {
+			for _, mp := range masks {
+				if got == normTerm("(or (and @D.head @S."+mp+") (shl @S.state 4))") {
+					got = w
+				}
+			}
+		}
 		r.Check(ok && got == w, rule, m, c.Pos(ro.Pos()), "indexed by "+w,
 			"the decision model "+m+" is indexed by "+got+"; the LZMA specification indexes it by "+w+" (state2 = state<<4 | posState for isMatch and isRepG0Long, state for the others)")
 	}
